@@ -25,7 +25,8 @@ LEVEL = "exploration"
 DESIGN_REF = "DESIGN.md section 6, C03"
 RULE = ("enumerated part: all ordered-base DAGs on <=4 spaces (bases have smaller index; 160 shapes for n=4) x all 15 "
         "non-empty definer subsets for cells f x a paired definer subset for reference r x 3 construction orders "
-        "(members first / bases first via add_bases / bases= at creation); history part: generated member/base edit "
+        "(members first / bases first via add_bases / bases= at creation), plus every consistent DAG on 4 and (a third of those on) 5 "
+        "spaces with >= n edges built edge by edge, far subs first, with each last base removed and re-added; history part: generated member/base edit "
         "histories; non-trivial = some name is defined in >=2 spaces of one linearisation (a real choice among "
         "definers exists) - for histories additionally an edit touches a definer of such a name; distinct = case hash")
 ASSUMPTIONS = [
@@ -144,6 +145,34 @@ def enumerate_cases(tier, seed):
                         ops.append(["remove_bases", ["D"], [[b] for b in rem]])
                         ops.append(["add_bases", ["D"], [[add]]])
                         yield {"ops": ops, "kind": "enum", "family": "base-churn"}
+    # edge churn on 4- and 5-space DAGs built edge by edge (sub spaces last-to-first, so that a space's edge to a
+    # far sub exists before its edge to a nearer one): every single base is removed and put back, one at a time,
+    # with members defined in the root only / in the root and a middle space
+    for n in (4, 5):
+        for idx, dag in enumerate(all_dags(n)):
+            direct = {i: list(b) for i, b in enumerate(dag)}
+            try:
+                for i in range(n):
+                    R.c3(i, direct)
+            except (TypeError, ValueError):
+                continue
+            edges = [(i, b) for i in range(n) for b in dag[i]]
+            if len(edges) < n or (tier == "quick" and n == 5 and (idx + seed) % 3 != 0):
+                continue
+            ops = [["new_space", [], NAMES[i], None, None] for i in range(n)]
+            ops.append(["new_cells", [NAMES[0]], fcell(0)])
+            ops.append(["set_ref", [NAMES[0]], "r", ["v", 10], None])
+            if idx % 2:
+                ops.append(["set_ref", [NAMES[n // 2]], "r", ["v", 10 + n // 2], None])
+            for i in reversed(range(n)):
+                for b in dag[i]:
+                    ops.append(["add_bases", [NAMES[i]], [[NAMES[b]]]])
+            for i, b in edges:
+                if len(dag[i]) == 1 or dag[i][-1] == b:
+                    # (re-adding appends: only a last or only base keeps the base order of the shape)
+                    ops.append(["remove_bases", [NAMES[i]], [[NAMES[b]]]])
+                    ops.append(["add_bases", [NAMES[i]], [[NAMES[b]]]])
+            yield {"ops": ops, "kind": "enum", "family": "edge-churn", "dag": dag}
     if tier == "thorough":
         # a deterministic 4% sample of the 5-space DAGs
         n = 5
@@ -337,7 +366,8 @@ def run_case(case):
             if (kind, nm) in comp_before or (kind, nm) in competing(rm):
                 touched = True
         # the structure oracle runs after every step of a history, at the end of a configuration
-        if is_enum and i < len(ops) - 1:
+        if is_enum and i < len(ops) - 1 and not (case.get("family") == "edge-churn" and op[0] in ("remove_bases",)
+                                                  or case.get("family") == "edge-churn" and i and ops[i - 1][0] == "remove_bases"):
             continue
         f = check_structure(real, rm)
         if f:
